@@ -21,7 +21,7 @@ EXPLANATION = (
     " Added later: R2 also demands that the new record is stored before the handler first suspends (an older frame's handler cannot overwrite a newer record; getters show a frame as soon as its handler starts); R8 the stored records are decoded as the vendor defines (C05.R1-R3 re-used); R9 subscriber isolation (C07.R7 re-used)."
 )
 ASSUMPTIONS = ["Enum members are compared by identity; dict lookup of a missing key raises KeyError"]
-FLOORS = {"C10.R1": 14, "C10.R2": 10, "C10.R3": 40, "C10.R4": 8, "C10.R5": 6, "C10.R6": 6, "C10.R7": 1, "C10.R8": 1, "C10.R9": 1}
+FLOORS = {"C10.R1": 14, "C10.R2": 10, "C10.R3": 40, "C10.R4": 8, "C10.R5": 6, "C10.R6": 6, "C10.R7": 1, "C10.R8": 1, "C10.R9": 1, "C10.R10": 1}
 
 # getter -> how names are translated (None = identity)
 def _selected_mode(n):
@@ -86,6 +86,15 @@ def run(ctx):
 
     from . import c07
 
+    from . import c09 as _c09
+
+    def handshake(c):
+        for modname in (AT4_API, AT5_API):
+            cases, mr = _c09.extract(c, modname)
+            _c09.r1(c, modname, cases, mr)
+
+    _reuse(ctx, "C10.R10", [handshake], "every frame of the handshake is applied to the model before the client reports itself initialised (C09.R1)",
+           keep=lambda o: "processes" in o.construct or "model-complete" in o.construct or o.verdict != "HOLDS")
     _reuse(ctx, "C10.R9", [c07.r7], "a raising subscriber does not abort the loop over the records of a frame: the entities listed after it are still updated (C07.R7)")
     _reuse(ctx, "C10.R8", [status_decoders], "the records the object model stores are decoded as the vendor defines (layout, code tables, affine readings: C05.R1-R3), so an attribute equals the protocol reading of the frame",
            keep=lambda o: o.rule in ("C05.R1", "C05.R2", "C05.R3") or (o.verdict != "HOLDS" and "not-available" not in o.construct and o.rule != "C05.R4"))
@@ -138,6 +147,50 @@ def r3(ctx):
                     ctx.check(ok, R, lab, m, fnode, f"returns <status->API table>[{want_inner}]", norm_text(v))
                 else:
                     ctx.check(norm_text(v) == want_inner, R, lab, m, fnode, f"returns {want_inner}", norm_text(v))
+    # the remaining public getters: identity / wiring getters read the attribute the constructor (or the latest record) set,
+    # the model constant names the generation, spill_state follows the two status flags (truth table, evaluated)
+    simple = {
+        "Zone": {"name": ("self._name",)},
+        "AirConditioner": {"zones": ("self._zones",)},
+        "AirTouch": {"initialised": ("self._initialised_event.is_set()",), "airtouch_id": ("self._airtouch_id",), "serial": ("self._serial",), "name": ("self._name",), "host": ("self._socket.host",),
+                     "air_conditioners": ("list(self._air_conditioners.values())", "[*self._air_conditioners.values()]")},
+    }
+    from ..minieval import Mini, Unsupported
+
+    for modname, gen, zcls, acls, tcls in ((AT4_API, "4", "At4Zone", "At4AirConditioner", "AirTouch4"), (AT5_API, "5", "At5Zone", "At5AirConditioner", "AirTouch5")):
+        m = ctx.repo.module(modname)
+        for clsname, kind in ((zcls, "Zone"), (acls, "AirConditioner"), (tcls, "AirTouch")):
+            ci = m.get_class(clsname)
+            for getter, accepted in simple[kind].items():
+                fnode = ci.methods.get(getter)
+                v = _single_return(fnode) if fnode is not None else None
+                if v is not None:
+                    v = inline_properties(ctx.repo, m, v, "self", ci)
+                ctx.check(fnode is not None and ci.is_property(getter) and v is not None and norm_text(v) in accepted, R, f"{clsname}.{getter}", m, fnode or ci.node, f"returns {accepted[0]}", norm_text(v) if v is not None else "missing / not a single return")
+        tc = m.get_class(tcls)
+        fnode = tc.methods.get("model")
+        v = _single_return(fnode) if fnode is not None else None
+        val = ctx.repo.try_fold(m, v) if v is not None else None
+        ctx.check(getattr(val, "name", None) == f"AIRTOUCH_{gen}", R, f"{tcls}.model", m, fnode or tc.node, f"AirTouchModel.AIRTOUCH_{gen}", repr(val))
+        ac = m.get_class(acls)
+        fnode = ac.methods.get("spill_state")
+        ctx.require(fnode is not None, f"{m.relpath}: {acls}.spill_state vanished")
+        rows, bad = [], None
+        for spill in (False, True):
+            for byp in ((False, True) if gen == "5" else (False,)):
+                atoms = {"self._ac_status.spill_active": spill}
+                if gen == "5":
+                    atoms["self._ac_status.bypass_active"] = byp
+                try:
+                    got = Mini(ctx.repo, m, atoms, ac).function_value(fnode, {})
+                except Unsupported as ex:
+                    raise AnalysisError(f"{m.relpath}: {acls}.spill_state left the evaluable fragment: {ex}")
+                name = getattr(got, "name", repr(got))
+                want = {"SPILL"} if spill and not byp else {"BYPASS"} if byp and not spill else {"SPILL", "BYPASS"} if spill and byp else {"NONE"}
+                rows.append(f"spill={spill}{', bypass=' + str(byp) if gen == '5' else ''} -> {name}")
+                if name not in want and bad is None:
+                    bad = rows[-1] + f" (expected {' or '.join(sorted(want))})"
+        ctx.check(bad is None, R, f"{acls}.spill_state", m, fnode, "SPILL while the status reports spill, BYPASS while it reports bypass (AirTouch 5), NONE otherwise", bad or "; ".join(rows))
     return tables
 
 
@@ -208,6 +261,28 @@ def r2(ctx):
         none_ok = any(isinstance(r.value, ast.Constant) and r.value.value is None for r in rets) and bool(dis)
         time_ok = any(isinstance(r.value, ast.Call) and norm_text(r.value).replace(" ", "") in ("datetime.time(hour=timer_state.hour,minute=timer_state.minute)", "datetime.time(timer_state.hour,timer_state.minute)") for r in rets)
         ctx.check(none_ok and time_ok, R, f"{clsname}.next_quick_timer:value", m, f.node, "None when disabled, else time(hour, minute) of that timer", "; ".join(norm_text(r) for r in rets))
+        # ... decided on witness timer states (disabled or not, midnight included) by the checker's interpreter
+        import datetime as _dt
+
+        from ..minieval import FakeObj, Mini, Unsupported
+
+        api = ctx.repo.module("pyairtouch.api")
+        tt = api.get_class("AcTimerType")
+        bad = None
+        for tname, attr in (("ON_TIMER", "on_timer"), ("OFF_TIMER", "off_timer")):
+            for dis in (False, True):
+                for hh, mi in ((0, 0), (0, 30), (7, 0), (23, 59)):
+                    mine = FakeObj("AcTimerState", disabled=dis, hour=hh, minute=mi)
+                    other = FakeObj("AcTimerState", disabled=not dis, hour=11, minute=11)
+                    atoms = {f"self._ac_timer_status.{attr}": mine, f"self._ac_timer_status.{'off_timer' if attr == 'on_timer' else 'on_timer'}": other}
+                    try:
+                        got = Mini(ctx.repo, m, atoms, f.cls).function_value(f.node, {f.params[1]: EnumVal(tt, tname, tt.enum_members(ctx.repo)[tname])})
+                    except Unsupported as ex:
+                        raise AnalysisError(f"{m.relpath}: {clsname}.next_quick_timer left the evaluable fragment: {ex}")
+                    want = None if dis else _dt.time(hour=hh, minute=mi)
+                    if got != want and bad is None:
+                        bad = f"{tname} {'disabled' if dis else 'enabled'} at {hh:02d}:{mi:02d} -> {got!r}, expected {want!r}"
+        ctx.check(bad is None, R, f"{clsname}.next_quick_timer:truth-table", m, f.node, "for both timers: None exactly when the reported timer is disabled, otherwise its hour and minute (00:00 is a time)", bad or "")
 
 
 def r4(ctx):
@@ -372,3 +447,12 @@ def r6(ctx):
             ctx.check(a is not None and norm_text(a) == "self.ac_id", R, f"{clsname}.update_ac_status:request-own-ac", m, c, "ac_number=self.ac_id", norm_text(a) if a is not None else "")
         e = c12.analyse_update(ctx, modname, clsname, "update_ac_error_info")
         ctx.check(bool(e["stores"]) and e["stores"][0][1] == "_ac_error_info", R, f"{clsname}.update_ac_error_info:stores", m, e["fn"].node, "stores the text in _ac_error_info", "not stored")
+    # the reply to that request is applied in whatever state it arrives: the request goes out with the first AC status of the
+    # handshake, so its answer comes before CONNECTED; a state guard on that case drops the text for as long as the fault lasts
+    from . import c09
+
+    for modname in (AT4_API, AT5_API):
+        cases, mr = c09.extract(ctx, modname)
+        gen = modname.split(".")[1]
+        ei = [c for c in cases if c.classes[-1:] == ["AcErrorInformationMessage"]]
+        ctx.check(len(ei) == 1 and not ei[0].states and not ei[0].other_atoms, R, f"{gen}:_message_received:error-information-in-every-state", mr.module, (ei[0].node.pattern if ei else mr.node), "the AC error information message is processed whatever the handshake state (no guard on its case)", f"guard: states={ei[0].states} {ei[0].other_atoms}" if ei else "no such case")
